@@ -456,6 +456,8 @@ func (r *resolver) findMatch(ctx context.Context, requirements []resolve.Version
 			if err != nil {
 				return resolve.Version{}, err
 			}
+			// The slice belongs to the client; do not reorder it in place.
+			versions = slices.Clone(versions)
 			resolve.SortVersions(versions)
 			slices.Reverse(versions)
 		}
